@@ -72,7 +72,7 @@ func runMouse(cfg hx.Config, ch *simrt.Chooser, reps []mrep, text []string, cuts
 			w.feedHold(in[start:i])
 			start = i
 			if i < len(in) {
-				w.Tty.Faults["read_split"]++
+				w.Tty.Faults.Inc("read_split")
 			}
 		}
 	}
@@ -118,7 +118,7 @@ func runMouse(cfg hx.Config, ch *simrt.Chooser, reps []mrep, text []string, cuts
 	if held != len(got) && f == nil {
 		mk("C12/pos", "only %d of %d events were delivered before any time passed (complete reports need no timeout)", held, len(got))
 	}
-	hx.St.Record(w.S, w.Tty.Faults, func() interface{} {
+	hx.St.Record(w.S, w.Tty.Faults.Map(), func() interface{} {
 		return map[string]interface{}{"config": cfg.String(), "bytes": fmt.Sprintf("%q", in), "cuts": cuts, "events": got}
 	})
 	pn, cerr := w.finish()
